@@ -117,17 +117,32 @@ def forwards_own_parameters(c, allow=("np", "numpy")):
 
 
 def wrapper_must_consume(eng, W, inner):
-    """Inside the helper, every path from the entry to a normal exit passes the consumer call -- except through `nsamples-parameter <= 0` (nothing was
-    evaluated) or isnan(residual parameter) (the value cannot be the best point)."""
+    """Inside the helper, every path from the entry to a normal exit passes a consumer call (one of `inner`: a consumer or a list of them) -- except through
+    `nsamples-parameter <= 0` (nothing was evaluated) or isnan(residual parameter) (the value cannot be the best point)."""
     from ..norm import atom_of, const_value
     from ..dataflow import Flow
     cfg = eng.cfg(W)
-    nsp = inner.arg("nsamples")
-    nsp = nsp.id if isinstance(nsp, ast.Name) else None
-    rvn = _free_names(inner.arg("rvec")) & set(W.all_params) if inner.arg("rvec") is not None else set()
+    inners = list(inner) if isinstance(inner, (list, tuple)) else [inner]
+    nodes = set(c.node for c in inners)
+    nsp = None
+    rvn = set()
+    for c in inners:
+        a = c.arg("nsamples")
+        if nsp is None and isinstance(a, ast.Name) and a.id in W.all_params:
+            nsp = a.id
+        if c.arg("rvec") is not None:
+            rvn |= _free_names(c.arg("rvec")) & set(W.all_params)
+    if nsp is None:
+        # the count may only appear as a slice bound / loop limit: `rvec_list[:num_samples_run]`, `range(1, num_samples_run)`
+        for c in inners:
+            for p in ("rvec",):
+                a = c.arg(p)
+                for sub in ast.walk(a) if a is not None else []:
+                    if isinstance(sub, ast.Slice) and isinstance(sub.upper, ast.Name) and sub.upper.id in W.all_params:
+                        nsp = sub.upper.id
 
     def node_fn(n, s):
-        return ["-"] if n == inner.node else [s]
+        return ["-"] if n in nodes else [s]
 
     def edge_fn(a, b, e, s):
         if s == "P" and cfg.kind(a) == "cond" and e["label"] in (True, False):
@@ -144,6 +159,19 @@ def wrapper_must_consume(eng, W, inner):
     return "P" not in set(fl.states(cfg.exit))
 
 
+def wrapper_inner_consumers(eng, W):
+    """The record consumers inside helper W if W is a pure forwarding helper: all of them store (expressions over) W's own parameters and together they lie on
+    every path through W (up to the 'nothing evaluated' / NaN exemptions).  [] otherwise."""
+    cs = [c for c in consumers_in(eng, W, wrappers=False)]
+    if not cs or not all(forwards_own_parameters(c) for c in cs):
+        return []
+    if not any(c.arg("x") is not None or c.arg("rvec") is not None for c in cs):
+        return []
+    if not wrapper_must_consume(eng, W, cs):
+        return []
+    return cs
+
+
 def wrapper_consumers(eng, fi):
     cfg = eng.cfg(fi)
     out = []
@@ -154,8 +182,8 @@ def wrapper_consumers(eng, fi):
         W, bound = tg[0]
         if W.fid in CONSUMERS or W.fid == EVAL or W.is_lambda or W.fid == fi.fid:
             continue
-        inner = [c for c in consumers_in(eng, W, wrappers=False) if forwards_own_parameters(c)]
-        if len(inner) != 1 or not wrapper_must_consume(eng, W, inner[0]):
+        inner = wrapper_inner_consumers(eng, W)
+        if not inner:
             continue
         b = bind_call(ci.node, W, bound and W.is_method)
         if b.errors or b.star is not None or b.kwstar is not None:
@@ -176,7 +204,8 @@ def wrapper_consumers(eng, fi):
                 break
             mapping[pn] = e
         if okm:
-            out.append(WrappedConsumer(fi, cfg, ci.node, inner[0].target, inner[0], W, mapping))
+            for ic in inner:
+                out.append(WrappedConsumer(fi, cfg, ci.node, ic.target, ic, W, mapping))
     return out
 
 
